@@ -278,20 +278,71 @@ def state_fn(f, *extra):
     return final
 
 
+DEFAULT_TABLES = {"_SBOX": ("sbox", None), "_INV_SBOX": ("inv", None), **{f"_MUL{k}": ("mul", k) for k in (2, 3, 9, 11, 13, 14)}}
+_TABLE_ROLES = {}
+
+
+def table_roles(repo=None):
+    """{module-level name: ("sbox" | "inv" | "mul", k)}: which names hold the S-box, its inverse and the GF multiples.
+    The standard names are taken as they are; when some of them are gone (renamed tables), the candidates are found BY VALUE
+    (the module's top level is executed natively, 256-entry int sequences are compared with the specification tables).  This
+    only selects names: each functional description installed for a name is justified by the `module-invariant` obligation of
+    that name in table_checks, which evaluates the real initialiser through the executor."""
+    key = repo or loader.REPO
+    if key in _TABLE_ROLES:
+        return _TABLE_ROLES[key]
+    m = loader.module(AES, repo)
+    roles = {n: r for n, r in DEFAULT_TABLES.items() if n in m.assigns}
+    if len(roles) < len(DEFAULT_TABLES):
+        import signal
+        ns = {"__name__": "c20_table_probe"}
+
+        def _alarm(*_a):
+            raise TimeoutError()
+        old = None
+        try:
+            old = signal.signal(signal.SIGALRM, _alarm)
+            signal.alarm(5)
+            exec(compile(m.source, m.rel, "exec"), ns)
+        except BaseException:  # noqa -- the probe is best effort
+            pass
+        finally:
+            try:
+                signal.alarm(0)
+                if old is not None:
+                    signal.signal(signal.SIGALRM, old)
+            except Exception:  # noqa
+                pass
+        specs = {("sbox", None): SBOX_SPEC, ("inv", None): INV_SBOX_SPEC}
+        specs.update({("mul", k): [_pmul(v, k) for v in range(256)] for k in range(2, 16)})
+        for n in m.assigns:
+            v = ns.get(n)
+            if n in roles or not isinstance(v, (tuple, list, bytes)) or len(v) != 256:
+                continue
+            try:
+                vals = [int(x) for x in v]
+            except Exception:  # noqa
+                continue
+            for r, spec in specs.items():
+                if vals == spec:
+                    roles[n] = r
+    _TABLE_ROLES[key] = roles
+    return roles
+
+
 def install_tables(reg):
     """Module tables as functional tables (each description is an obligation in table_checks)."""
     m = loader.module(AES)
-    def tab(name, fn):
+    for name, (kind, k) in table_roles().items():
+        if kind == "mul":
+            reg.module_consts[(AES, name)] = VTable([VInt(_pmul(v, k)) for v in range(256)], (lambda t, k=k: gmul_const(t, k)), name)
+            continue
+        spec, fn = (SBOX_SPEC, sbox) if kind == "sbox" else (INV_SBOX_SPEC, inv_sbox)
         try:
-            lit = m.literal(name)
-        except Exception:
-            return
-        reg.module_consts[(AES, name)] = VTable([VInt(int(x)) for x in lit], fn, name)
-    tab("_SBOX", sbox)
-    tab("_INV_SBOX", inv_sbox)
-    for k in (2, 3, 9, 11, 13, 14):
-        reg.module_consts[(AES, f"_MUL{k}")] = VTable([VInt(_pmul(v, k)) for v in range(256)],
-                                                       (lambda t, k=k: gmul_const(t, k)), f"_MUL{k}")
+            lit = [int(x) for x in m.literal(name)]
+        except Exception:  # noqa
+            lit = list(spec)       # not a literal: the obligation of this name evaluates the initialiser
+        reg.module_consts[(AES, name)] = VTable([VInt(x) for x in lit], fn, name)
 
 
 def contracts(reg):
@@ -414,7 +465,14 @@ def contracts(reg):
         ensures=[("only-16-byte-blocks", lambda c: z3.Not(bad_block(c)))],
         raises=[Raises("ValueError", when=bad_block)]))
     out.extend(mode_contracts(reg))
-    return out
+    # private helpers are under contract for modularity only: where a helper was renamed / inlined / deleted, its callers are
+    # verified with whatever they call now (functions without contract are executed in place)
+    have = loader.module(AES).functions
+    return [c for c in out if not (c.target.split("::")[-1] in OPTIONAL_HELPERS and c.target.split("::")[-1] not in have)]
+
+
+OPTIONAL_HELPERS = {"_xtime", "_gf_mul", "_build_mul_table", "_add_round_key", "_sub_bytes", "_inv_sub_bytes", "_shift_rows", "_inv_shift_rows",
+                    "_mix_columns", "_inv_mix_columns", "_build_rcon", "_rcon", "_rot_word", "_sub_word", "_chunks"}
 
 
 def p_definition_time_default(fnode, expr):
@@ -934,47 +992,71 @@ def lemmas():
 
 
 def table_checks(repo, tier):
-    """Ground obligations on the literal tables of the module."""
+    """Ground obligations on the constant tables of the module.  The tables are private names: an obligation exists while the
+    module has a table of that name (ids marked volatile: a renamed table is simply evaluated where it is used); a table that is
+    not a literal is evaluated by the executor; one that cannot be evaluated is `unknown` (the replayer compares the real tables)."""
     from pyvc.flow import ground_obligation
     m = loader.module(AES, repo)
     obls = []
-    G = lambda oid, ok, why="": obls.append(ground_obligation(oid, ok, why, AES, kind="module-invariant", backend="ground"))
-    try:
-        sb, isb = m.literal("_SBOX"), m.literal("_INV_SBOX")
-    except Exception as e:  # noqa
-        return {"obligations": [], "undecided": [{"obligation": "C20/_pypdf_aes_fallback.py::tables", "why": f"tables not literal: {e}"}]}
-    bad = [i for i in range(256) if i >= len(sb) or sb[i] != SBOX_SPEC[i]]
-    G("C20/_pypdf_aes_fallback.py::_SBOX/module-invariant#equals-affine-of-inverse", len(sb) == 256 and not bad, f"first differing indices {bad[:4]}")
-    bad = [i for i in range(256) if i >= len(isb) or isb[i] != INV_SBOX_SPEC[i]]
-    G("C20/_pypdf_aes_fallback.py::_INV_SBOX/module-invariant#inverts-_SBOX", len(isb) == 256 and not bad, f"first differing indices {bad[:4]}")
-    # _MULk = _build_mul_table(k): the module-level initialiser is executed symbolically under the
-    # *verified* contract of _build_mul_table; the resulting table must be gmul(v, k) for every v
+
+    def G(oid, ok, why="", definite=True):
+        o = ground_obligation(oid, ok, "" if ok else why, AES, kind="module-invariant", backend="ground", definite=definite)
+        o["volatile"] = True
+        obls.append(o)
     from pyvc.contracts import Registry
     from pyvc.exctypes import Universe
     from pyvc.symex import Executor
     reg = Registry()
     for c in contracts(reg):
         reg.add(c)
-    for k in (2, 3, 9, 11, 13, 14):
-        reg.module_consts.pop((AES, f"_MUL{k}"), None)
+    roles = table_roles(repo)
+    for name in roles:
+        reg.module_consts.pop((AES, name), None)
     ex = Executor(m, reg, Universe(repo))
     ex.sinks.append([])
-    for k in (2, 3, 9, 11, 13, 14):
-        v = ex.module_const(f"_MUL{k}")
-        items = getattr(v, "items", None)
-        ok = items is not None and len(items) == 256
-        bad = []
-        if ok:
-            for i, it in enumerate(items):
+
+    def values(name):
+        """concrete ints of a module-level table or None"""
+        try:
+            lit = m.literal(name)
+            return [int(x) for x in lit]
+        except Exception:  # noqa
+            pass
+        try:
+            v = ex.module_const(name)
+            items = ex.concrete_items(State(), v) if not hasattr(v, "items") else v.items
+            out = []
+            for it in items:
                 t = z3.simplify(it.t)
-                if not (z3.is_bv_value(t) or z3.is_int_value(t)) or t.as_long() != _pmul(i, k):
-                    bad.append(i)
-        G(f"C20/_pypdf_aes_fallback.py::_MUL{k}/module-invariant#equals-gf-multiples-of-{k}", ok and not bad, f"bad indices {bad[:4]}; kind {type(v).__name__}")
-    v = ex.module_const("_RCON")
-    items = getattr(v, "items", None) or []
+                if not (z3.is_bv_value(t) or z3.is_int_value(t)):
+                    return None
+                out.append(t.as_long())
+            return out
+        except Exception:  # noqa
+            return None
+
+    def table(name, label, spec, exact_len=True):
+        if name not in m.assigns:
+            return
+        vals = values(name)
+        oid = f"C20/_pypdf_aes_fallback.py::{name}/module-invariant#{label}"
+        if vals is None:
+            G(oid, False, "table value not computable by the executor", definite=False)
+            return
+        bad = [i for i in range(len(vals) if not exact_len else len(spec)) if i >= len(vals) or i >= len(spec) or vals[i] != spec[i]]
+        G(oid, (len(vals) == len(spec) if exact_len else len(vals) >= 2) and not bad, f"{len(vals)} entries, first differing indices {bad[:4]}")
+    from pyvc.state import State
+    # (_MULk = _build_mul_table(k): the module-level initialiser is executed symbolically under the *verified* contract of
+    # _build_mul_table -- or in place when that helper was renamed; the resulting table must be gmul(v, k) for every v)
+    for name, (kind, k) in roles.items():
+        if kind == "sbox":
+            table(name, "equals-affine-of-inverse", SBOX_SPEC)
+        elif kind == "inv":
+            table(name, "inverts-_SBOX", INV_SBOX_SPEC)
+        else:
+            table(name, f"equals-gf-multiples-of-{k}", [_pmul(i, k) for i in range(256)])
     # every entry present is the right power of x (how many entries _expand_key needs is decided by its own contract)
-    ok = len(items) >= 2 and all(z3.simplify(it.t).as_long() == (0 if i == 0 else rcon_spec(i)) for i, it in enumerate(items))
-    G("C20/_pypdf_aes_fallback.py::_RCON/module-invariant#equals-powers-of-x", ok, f"kind {type(v).__name__}, {len(items)} entries")
+    table("_RCON", "equals-powers-of-x", [0] + [rcon_spec(i) for i in range(1, 65)], exact_len=False)
     return {"obligations": obls}
 
 
@@ -982,6 +1064,9 @@ def post_report(contract, rep):
     """`iv-is-drawn-...` is a SUFFICIENT condition for freshness (the IV *is* a draw made inside the call); an IV computed
     from such a draw in some other way makes the solver refute the clause without being a counterexample to the property:
     such a model is downgraded to `unknown`, the native replayer (IVs of several calls compared) decides."""
+    if contract.target.split("::")[-1] in OPTIONAL_HELPERS:
+        for o in rep.obligations:
+            o["volatile"] = True          # exists only while the helper exists (not locked; the callers' obligations are)
     if contract.target.split("::")[-1] in DRIVERS:
         # the drivers' loops are cut by invariants that this pack GUESSES from the roles of the locals (output buffer, counters,
         # chaining block): a VC that fails may only mean that the guessed invariant does not fit a restructured loop.  Such a
@@ -1106,14 +1191,17 @@ def chunks_iteration(repo, tier):
     c = FnContract(target=f"{AES}::_chunks", generator=True, params=[("data", DATA), ("size", p_const(16))],
                    requires=lambda c: c.args["data"].length % 16 == 0, raises=[],
                    loops={0: LoopSpec(inv=inv, label="chunk-k-is-bytes-16k..16k+15")})
+    if "_chunks" not in loader.module(AES, repo).functions:
+        return {"obligations": []}          # the drivers slice the buffer themselves
     rep = verify.run_contract("C20", c, reg, Universe(repo), repo=repo, executor_cls=M.C20Executor)
     pre = "C20/_pypdf_aes_fallback.py::_chunks"
     if rep.error or rep.out_of_subset:
         return {"obligations": [{"id": f"{pre}/out-of-subset", "kind": "out-of-subset", "status": "unknown", "vcs": 0, "seconds": 0.0, "backends": {},
-                                 "witness": None, "reason": "OUT-OF-SUBSET " + str(rep.error or rep.out_of_subset), "function": f"{AES}::_chunks", "loc": ""}]}
+                                 "witness": None, "reason": "OUT-OF-SUBSET " + str(rep.error or rep.out_of_subset), "function": f"{AES}::_chunks", "loc": "", "volatile": True}]}
     keep = [o for o in rep.obligations if "inv-" in o["id"] or o["id"].endswith("/raises")]
     for o in keep:
         o["function"] = f"{AES}::_chunks"
+        o["volatile"] = True
     m = loader.module(AES, repo)
     return {"obligations": keep, "functions": [dict(m.fn_info("_chunks"), obligations=len(keep))]}
 
